@@ -758,11 +758,93 @@ fn run_scalar(case: &Value) -> Value {
     }
 }
 
+// ------------------------------------------------------------------------------------------------ operator level: break-only tour
+/// case {"domain":"breakop","problem1":P1,"problem2":P2,"matrices":[..],"job":"A"}: P1 (one vehicle) is solved by the real solver,
+/// its document is read as the initial solution of P2 (the same plus a second vehicle) with read_init_solution; the job is taken
+/// out of its tour (tour.remove, required.push: what a ruin does) and the real RecreateWithCheapest runs (prepare, insertion loop,
+/// finalize_insertion_ctx).  res: {"before": routes, "removed": routes, "after": routes, "unassigned": [..]} with routes =
+/// [[vehicle id, [job id per job activity]]]
+fn run_breakop(case: &Value) -> Value {
+    use vrp_core::models::problem::{Job, JobIdDimension, VehicleIdDimension};
+    use vrp_core::solver::search::{Recreate, RecreateWithCheapest};
+    use vrp_pragmatic::format::solution::read_init_solution;
+    let matrices: Vec<String> =
+        case["matrices"].as_array().map(|ms| ms.iter().map(|m| m.to_string()).collect()).unwrap_or_default();
+    let random: Arc<dyn Random> = Arc::new(DefaultRandom::new_repeatable());
+    let env = Arc::new(Environment::new(random.clone(), None, Parallelism::default(), Arc::new(|_: &str| {}), false));
+    let p1 = match (case["problem1"].to_string(), matrices.clone()).read_pragmatic() {
+        Ok(p) => Arc::new(p),
+        Err(errs) => return json!({"outcome": "error", "error": format!("read: {}", errs)}),
+    };
+    let p2 = match (case["problem2"].to_string(), matrices).read_pragmatic() {
+        Ok(p) => Arc::new(p),
+        Err(errs) => return json!({"outcome": "error", "error": format!("read: {}", errs)}),
+    };
+    let config = VrpConfigBuilder::new(p1.clone())
+        .set_environment(env.clone())
+        .set_telemetry_mode(TelemetryMode::None)
+        .prebuild()
+        .and_then(|b| b.with_max_generations(Some(1)).build());
+    let config = match config {
+        Ok(c) => c,
+        Err(e) => return json!({"outcome": "error", "error": format!("config: {}", e)}),
+    };
+    let first = match Solver::new(p1.clone(), config).solve() {
+        Ok(s) => s,
+        Err(e) => return json!({"outcome": "error", "error": format!("solve: {}", e)}),
+    };
+    let mut buf = BufWriter::new(Vec::new());
+    if let Err(e) = write_pragmatic(&p1, &first, PragmaticOutputType::OnlyPragmatic, &mut buf) {
+        return json!({"outcome": "error", "error": format!("write: {}", e)});
+    }
+    let bytes = buf.into_inner().unwrap_or_default();
+    let init = match read_init_solution(std::io::BufReader::new(bytes.as_slice()), p2.clone(), random.clone()) {
+        Ok(s) => s,
+        Err(e) => return json!({"outcome": "error", "error": format!("init: {}", e)}),
+    };
+    let mut ctx = InsertionContext::new_from_solution(p2.clone(), (init, None), env.clone());
+    let jid = |job: &Job| job.dimens().get_job_id().cloned().unwrap_or_default();
+    let dump = |ctx: &InsertionContext| -> Value {
+        Value::Array(
+            ctx.solution
+                .routes
+                .iter()
+                .map(|rc| {
+                    let vid = rc.route().actor.vehicle.dimens.get_vehicle_id().cloned().unwrap_or_default();
+                    let jobs: Vec<String> =
+                        rc.route().tour.all_activities().filter_map(|a| a.retrieve_job()).map(|j| jid(&j)).collect();
+                    json!([vid, jobs])
+                })
+                .collect(),
+        )
+    };
+    let before = dump(&ctx);
+    let name = case["job"].as_str().unwrap_or("A");
+    let job = match p2.jobs.all().iter().find(|j| jid(j) == name) {
+        Some(j) => j.clone(),
+        None => return json!({"outcome": "error", "error": "config: no such job"}),
+    };
+    ctx.solution.routes.iter_mut().for_each(|rc| {
+        if rc.route().tour.contains(&job) {
+            rc.route_mut().tour.remove(&job);
+        }
+    });
+    ctx.solution.required.push(job);
+    let removed = dump(&ctx);
+    let population: Box<dyn HeuristicPopulation<Objective = GoalContext, Individual = InsertionContext> + Send + Sync> =
+        Box::new(Greedy::new(p2.goal.clone(), 1, None));
+    let rctx = RefinementContext::new(p2.clone(), population, TelemetryMode::None, env.clone());
+    let ctx = RecreateWithCheapest::new(random.clone()).run(&rctx, ctx);
+    let unassigned: Vec<String> = ctx.solution.unassigned.keys().map(|j| jid(j)).collect();
+    json!({"outcome": "ok", "before": before, "removed": removed, "after": dump(&ctx), "unassigned": unassigned})
+}
+
 fn run_case(case: &Value) -> Value {
     // a fresh single-threaded pool: fresh thread-local repeatable RNGs, as the shared `solve` op does
     let pool = rayon::ThreadPoolBuilder::new().num_threads(1).build().expect("rayon pool");
     pool.install(|| match case["domain"].as_str() {
         Some("scalar") => run_scalar(case),
+        Some("breakop") => run_breakop(case),
         _ => run_vrp(case),
     })
 }
